@@ -7,7 +7,7 @@
  * (#present nodes of the probed bucket) + an arbitrary number of entries elsewhere.
  * Per node the ghost (present in {0,1}, iters in 0..2) with refcount = present + iters >= 1:
  *   present = the key is in the dictionary; iters = iterators parked on the node.
- * 0..2 notifiers on the global list and 0..1 on every node, with arbitrary event masks.
+ * Notifiers: either none, or 2 on the global list and 1 on every node, with arbitrary event masks.
  * Keys: length 1..2 over arbitrary bytes; values: non-NULL tokens.
  *
  * The SHAPE (number of nodes, number of global notifiers, per-key notifiers yes/no) is enumerated by the
@@ -19,6 +19,19 @@
 #include <qb/qbmap.h>
 #include "verif.h"
 #include "alloc.h"
+/* quick tier: the probed key hashes to bucket HT_BUCKET; the spliced ghost case split (contracts/hashtable.spec)
+ * turns the bucket index the real code computes into that constant under the same assumption */
+#if !defined(HT_ANYBUCKET) && !defined(HT_BUCKET)
+#define HT_BUCKET 5
+#endif
+#ifdef HT_BUCKET
+static uint32_t verif_bucket_split(uint32_t h)
+{
+	ASSUME(h == HT_BUCKET);
+	return HT_BUCKET;
+}
+#define VERIF_BUCKET_SPLIT(h) verif_bucket_split(h)
+#endif
 #include "hashtable.c"
 #include "map_ghost.h"
 
@@ -48,18 +61,16 @@ int32_t HG_gev[2];
 
 /* quick tier: the probed key hashes to bucket HT_BUCKET (a symbolic bucket index costs 10x: every list
  * pointer then has a symbolic offset into the table); variants built with -DHT_ANYBUCKET lift this */
-#if !defined(HT_ANYBUCKET) && !defined(HT_BUCKET)
-#define HT_BUCKET 5
-#endif
-
 static uint32_t ht_probe_bucket(const char *k)
 {
 	uint32_t b = qb_hash_string(k, HT_ORDER);
 	ASSUME(b < HT_NB);   /* proved for every key and order in unit map.ht_hash */
 #ifdef HT_BUCKET
 	ASSUME(b == HT_BUCKET);
-#endif
+	return HT_BUCKET;
+#else
 	return b;
+#endif
 }
 
 #ifndef VERIF_STATE_EXTRA
@@ -348,8 +359,14 @@ static struct hash_table *ht_build2(unsigned n1, unsigned n2, unsigned gnot, uns
 	return t;
 }
 
-/* shape enumeration of the single-bucket states: 4 node counts x 3 global-notifier counts x per-key notifiers yes/no */
-#define HT_SHAPES 24
-#define HT_SHAPE_NODES(s) ((s) / 6)
-#define HT_SHAPE_GNOT(s) ((s) % 3)
-#define HT_SHAPE_NNOT(s) (((s) / 3) % 2)
+/* shape enumeration of the single-bucket states: node count 0..3 x notifiers {none, 2 global + 1 per key} */
+#define HT_SHAPES 8
+#define HT_SHAPE_NODES(s) ((s) / 2)
+#define HT_SHAPE_GNOT(s) (((s) % 2) * 2)
+#define HT_SHAPE_NNOT(s) ((s) % 2)
+#ifndef HT_SHAPE_FROM
+#define HT_SHAPE_FROM 0
+#endif
+#ifndef HT_SHAPE_TO
+#define HT_SHAPE_TO HT_SHAPES
+#endif
